@@ -44,6 +44,7 @@ pub fn bounds(tier: Tier) -> Vec<ConvBound> {
             mk(Fam::Map, 0, &two_rev, 4, 0, false, true),
             mk(Fam::Arr, 0, &two, 3, 1, false, true),
             mk(Fam::Rtx, 0, &two, 3, 0, false, false),
+            mk(Fam::Rtx, 4, &two, 3, 0, false, false),
             mk(Fam::Xml, 0, &two, 3, 0, false, false),
             mk(Fam::Nest, 0, &two_rev, 3, 0, false, true),
         ],
@@ -59,6 +60,7 @@ pub fn bounds(tier: Tier) -> Vec<ConvBound> {
             mk(Fam::Arr, 1, &two, 3, 2, true, true),
             mk(Fam::Rtx, 0, &two, 4, 0, false, true),
             mk(Fam::Rtx, 0, &two, 3, 2, true, true),
+            mk(Fam::Rtx, 4, &two, 3, 1, true, true),
             mk(Fam::Xml, 0, &two, 4, 0, false, true),
             mk(Fam::Xml, 0, &two, 3, 2, true, true),
             mk(Fam::Nest, 0, &two_rev, 4, 0, false, true),
